@@ -419,6 +419,19 @@ class Evaluator(object):
             r = self.call_hook(self, name, e)
             if r is not None:
                 return r
+        if isinstance(e.func, ast.Lambda) and not e.keywords:
+            # an applied lambda (what is left of an in-lined helper): arguments bound, body evaluated
+            a_ = e.func.args
+            if not (a_.vararg or a_.kwarg or a_.kwonlyargs or a_.defaults) and len(a_.args) == len(e.args):
+                vals = [self.ev(x) for x in e.args]
+                saved = self.env
+                self.env = dict(self.env)
+                try:
+                    for p_, v_ in zip(a_.args, vals):
+                        self.env[p_.arg] = v_
+                    return self.ev(e.func.body)
+                finally:
+                    self.env = saved
         if isinstance(e.func, ast.Name) and name in self.env and callable(self.env[name]):
             return self.env[name](*[self.ev(a) for a in e.args])
         if isinstance(e.func, ast.Name) and name in OPAQUE_FUNCS and not e.keywords:
